@@ -77,9 +77,23 @@ def Obs.dispatched (o : Obs) : Dispatch → Bool
   | .respond => o.sends + o.timers ≥ 1
 
 /-- the property, for one datagram: nothing raised; a well-formed message is dispatched, anything
-    else is dropped, and a dropped datagram is inert -/
-def ok (c : Option Dispatch) (o : Obs) : Bool :=
-  o.raised.isNone && (match c with | none => o.inert | some d => o.dispatched d)
+    else is dropped, and a dropped datagram is inert.  `may`: the message is accepted by today's
+    code but lacks a header UDA requires (see `mayDrop`) — the text does not say it is well-formed,
+    so either outcome is accepted: dispatched, or dropped and inert. -/
+def ok (c : Option Dispatch) (o : Obs) (may : Bool := false) : Bool :=
+  o.raised.isNone && (match c with | none => o.inert | some d => o.dispatched d || (may && o.inert))
+
+/-- the plain listeners notify on very little (advertisement: an NTS; search: no NTS).  A message
+    without the identifying headers UDA makes REQUIRED (advertisement: NT and USN; search response:
+    ST and USN) may as well be dropped by a stricter library. -/
+def mayDrop (cfg : Cfg) (ep : Endpoint) (data : Bytes) (loc : Option Addr) (src : Addr) (now : Int) : Bool :=
+  match protocolRecv Fixes.all cfg.prefixes data loc src now with
+  | .ok (some (_, h)) =>
+    (match ep with
+     | .adv => !(truthy (getL h "nt") && truthy (getL h "usn"))
+     | .search => !(truthy (getL h "st") && truthy (getL h "usn"))
+     | _ => false)
+  | _ => false
 
 /-- the model's outcome rendered as an observation (used for the correspondence and in the theorems) -/
 def obsOf (before : Tracker) (r : Except Exn (Tracker × Eff)) (sortKeys : List String → List String) : Option Obs :=
